@@ -3,7 +3,7 @@ homology; comparison).  See oracles.py for conventions."""
 import itertools, random, json, math
 from harness import impl
 from harness.impl import tok, parse_name, SimplicialComplex, Filtration
-from harness.oracles import oracle, family, classify, is_auto, full_obs
+from harness.oracles import oracle, family, classify, is_auto, full_obs, vs
 
 # ---------------------------------------------------------------- small linear algebra over GF(2)
 def gf2_rank(rows):
@@ -68,7 +68,7 @@ def components(c):
 def _record(c):
     rec = {}
     for s in c.simplices():
-        rec[tok(s)] = (c.orderOf(s), frozenset(map(tok, c.faces(s))), frozenset(map(tok, c.basisOf(s))),
+        rec[tok(s)] = (c.orderOf(s), frozenset(map(tok, c.faces(s))), vs(c, s),
                        json.dumps(c[s], sort_keys=True))
     return rec
 
@@ -85,7 +85,7 @@ def o_c02_pre(w, args):
     if kw in ('del', 'subdiv'):
         s = T.name()
         if s in c:
-            st['V'] = frozenset(map(tok, c.basisOf(s)))
+            st['V'] = vs(c, s)
     if kw == 'addfrom':
         src = w.vars.get(toks[2])
         if src is not None:
@@ -241,7 +241,7 @@ def o_c02_post(w, args):
 @oracle('c04')
 def o_c04(w, args):
     c = w.vars[args[0]]; rnd = random.Random(int(args[1]) if len(args) > 1 else 0)
-    fam = {tok(s): frozenset(map(tok, c.basisOf(s))) for s in c.simplices()}
+    fam = {tok(s): vs(c, s) for s in c.simplices()}
     byname = {tok(s): s for s in c.simplices()}
     order = {tok(s): c.orderOf(s) for s in c.simplices()}
     ss = c.simplices()
@@ -349,7 +349,7 @@ def o_c06_inv(w, args):
     another insertion order, and through copy / relabel"""
     c = w.vars[args[0]]; rnd = random.Random(int(args[1]) if len(args) > 1 else 0)
     want = dict(c.bettiNumbers())
-    fam = sorted({frozenset(map(tok, c.basisOf(s))) for s in c.simplices()}, key=lambda V: (len(V), sorted(V)))
+    fam = sorted({vs(c, s) for s in c.simplices()}, key=lambda V: (len(V), sorted(V)))
     pts = sorted({p for V in fam for p in V}); rnd.shuffle(pts)
     ren = {p: i + 100 for i, p in enumerate(pts)}
     d = SimplicialComplex()
